@@ -43,10 +43,41 @@ Section Interp.
     map (fun i => ndiv O (sum2 (mul2 (ring size i) data)) (sum2 (ring size i))) (seq 0 (Nat.div size 2)).
 
   (* encircled energy: for the radii rad_i the mask pup_i = circle(rad_i, 2*dim, centre, origin='corner');
-     returns the lists (diameter_i, energy_i / total) before interpolation (numpy.interp is not modelled) *)
+     returns the lists (diameter_i, energy_i / total) before interpolation *)
   Definition ee_curve (data : img) (xc yc : T) (rads : list T) : list (T * T) :=
     let dim2 := 2 * Nat.div (length data) 2 in
     map (fun r => let pup := circle O r dim2 xc yc false in
                   (nsqrt O (ndiv O (nmul O (sum2 pup) (nofZ O 4)) (npi O)),
                    ndiv O (sum2 (mul2 pup data)) (sum2 data))) rads.
+  (* ---- what encircled_energy returns: the curve resampled by numpy.interp on xi = linspace(0, dim, 4 dim), and the
+     diameter xi[argmin |yi - fraction|] ----
+     numpy.interp(x, xp, fp), xp non-decreasing: fp[0] left of xp[0], fp[-1] right of xp[-1], otherwise on the segment
+     [xp_j, xp_j+1) containing x (j = the largest index with xp_j <= x):  slope * (x - xp_j) + fp_j *)
+  Fixpoint interp_aux (x : T) (xp fp : list T) : T :=
+    match xp, fp with
+    | x0 :: ((x1 :: _) as xr), f0 :: ((f1 :: _) as fr) =>
+        if nltb O x x1 then nadd O (nmul O (ndiv O (nsub O f1 f0) (nsub O x1 x0)) (nsub O x x0)) f0 else interp_aux x xr fr
+    | _, f0 :: _ => f0
+    | _, [] => nzero O
+    end.
+  Definition np_interp (x : T) (xp fp : list T) : T :=
+    match xp, fp with
+    | x0 :: _, f0 :: _ => if nltb O x x0 then f0 else interp_aux x xp fp
+    | _, _ => nzero O
+    end.
+  Definition ee_xi (data : img) : list T := let dim := Nat.div (length data) 2 in linspace (zn dim) (4 * dim).
+  Definition ee_interp (data : img) (xc yc : T) (rads : list T) : list (T * T) :=
+    let c := ee_curve data xc yc rads in
+    let xp := nzero O :: map fst c in let fp := nzero O :: map snd c in
+    map (fun x => (x, np_interp x xp fp)) (ee_xi data).
+  (* numpy.argmin: first index of the smallest value *)
+  Fixpoint argmin_first (l : list T) (i besti : nat) (best : T) : nat :=
+    match l with [] => besti | v :: r => if nltb O v best then argmin_first r (S i) i v else argmin_first r (S i) besti best end.
+  Definition ee_diameter (data : img) (xc yc : T) (rads : list T) (fraction : T) : T :=
+    let c := ee_interp data xc yc rads in
+    let d := map (fun q => nabs O (nsub O (snd q) fraction)) c in
+    match d with
+    | [] => nzero O
+    | d0 :: r => nth (argmin_first r 1 0 d0) (map fst c) (nzero O)
+    end.
 End Interp.
